@@ -123,11 +123,42 @@ def gen_case(ck):
     return {"gd": gd.to_json(), "rows": rows, "batch": rng.choice([1, 2, 3, len(rows) - 1 or 1, len(rows), len(rows) + 2]), "history": hist}
 
 
+def huge_batch(ck):
+    from cayleypy import CayleyGraph, PermutationGroups
+
+    n, rows = 32, 1_200_000 + ck.rng.randint(0, 9999)
+    g = CayleyGraph(PermutationGroups.lrx(n), random_seed=1)
+    gen = np.random.default_rng(ck.seed)
+    central = np.arange(n, dtype=np.int64)
+    arr = np.tile(central, (rows, 1))
+    k = gen.integers(0, 4, size=rows)            # number of changed positions per row (0..3)
+    for j in range(3):
+        pos = gen.integers(0, n, size=rows)
+        sel = k > j
+        arr[sel, pos[sel]] = (arr[sel, pos[sel]] + 1 + j) % n
+    want = (arr != central[None, :]).sum(axis=1)
+    t = torch.from_numpy(arr)
+    st, out = algos.call(lambda: Predictor(g, "hamming")(t))
+    ck.case(["hamming-huge", n, rows], True)
+    ck.count("huge-batch")
+    case = {"huge_batch": {"n": n, "rows": rows, "numpy_seed": ck.seed}}
+    if st != "ok":
+        ck.violation("C19/hamming/error/huge", f"hamming predictor raised on a batch of {rows} rows: {out}", {"case": case})
+        return
+    got = np.asarray(out).reshape(-1)
+    if len(got) != rows or not np.array_equal(got.astype(np.int64), want.astype(np.int64)):
+        bad = int(np.argmax(got.astype(np.int64) != want.astype(np.int64))) if len(got) == rows else -1
+        ck.violation("C19/hamming/wrong-values/huge", f"hamming predictor is wrong on a batch of {rows} rows of {n} entries (first wrong row {bad})", {"case": case, "first_wrong_row": bad, "expected": int(want[bad]) if bad >= 0 else None, "observed": float(got[bad]) if bad >= 0 else None})
+
+
 def main():
     ck = Check("C19")
     if ck.replay:
         body = json.load(open(os.path.join(VERIF, ck.replay) if not os.path.isabs(ck.replay) else ck.replay))
-        ck.guard(run_case, ck, body["case"])
+        if "huge_batch" in body["case"]:
+            ck.guard(huge_batch, ck)
+        else:
+            ck.guard(run_case, ck, body["case"])
         ck.finish(rule="replay of one recorded case")
     ck.lean_obligations("CvProps.C19", THEOREMS)
     for case in json.load(open(os.path.join(VERIF, "harness", "corpus", "C19.json"))):
@@ -137,6 +168,10 @@ def main():
         if ck.enough():
             break
         ck.guard(run_case, ck, gen_case(ck))
+    # one very large batch per run (more than 2^24 state entries in ONE predictor batch: 32-point states, 1.2 M rows, default
+    # graph batch size), judged vectorised by the mismatch count; every row must be scored, in order
+    if not ck.enough():
+        ck.guard(huge_batch, ck)
     ck.finish(rule="generated permutation and matrix graphs (any state shape) x batches containing the central state, an all-different state and random states x batch sizes 1..len+2; x (for a third of the cases) a history of 1-3 earlier uses of the same Predictor object in scoring / simple / advanced beam searches incl. a non-central destination; judged by the mismatch count computed in plain Python")
 
 
